@@ -205,6 +205,8 @@ pub fn run(run: &mut Run) {
     run.prop("roundtrip-deep", || case_strategy(GenCfg { depth: 8, size: 160, heavy: false, ..GenCfg::std() }), n2, roundtrip);
     run.prop("oversize", oversize_strategy, run.tier.pick(60, 600), oversize);
     run.enumerate("well-known-atoms", well_known_atoms().into_iter(), roundtrip);
+    // decoding what the library encoded does not depend on what the same thread decoded (and rejected) before
+    run.prop("decode-after-rejections", crate::props::c03::after_strategy, run.tier.pick(1_500, 60_000), crate::props::c03::after_oracle);
     if run.tier == crate::engine::Tier::Thorough {
         // coverage-guided byte fuzzing of the same oracle (libFuzzer, structure-aware through fuzzde); see fuzzbridge.rs
         crate::fuzzbridge::campaign(run, "c01", 3_000_000, 400);
@@ -217,5 +219,6 @@ pub fn replays() -> Vec<ReplayEntry> {
         replay_entry("roundtrip-deep", roundtrip),
         replay_entry("oversize", oversize),
         replay_entry("well-known-atoms", roundtrip),
+        replay_entry("decode-after-rejections", crate::props::c03::after_oracle),
     ]
 }
